@@ -351,6 +351,9 @@ def run(ctx: Ctx) -> None:
     }, "omitted configuration steps are skipped, not replaced")
     ctx.call(conflict_symmetry, "4")
     ctx.call(error_handling, "5")
+    from . import graphrules as GR
+
+    ctx.call(GR.restriction_updates, "6")
 
 
 MUTANTS = [
